@@ -95,6 +95,7 @@ package placement
 //@   ensures [wf] wfWorker(w)
 //@   ensures [earlier-rules-untouched] forall k :: {w.bestFit.RuleFits[k]} 0 <= k && k < index && k < len(w.rules) ==> w.bestFit.RuleFits[k] == old(w.bestFit.RuleFits[k])
 //@   ensures [nothing-recorded-unless-reported] !result && index < len(w.rules) ==> w.bestFit.RuleFits[index] == old(w.bestFit.RuleFits[index])
+//@   ensures [every-rule-in-range-is-enumerated] index < len(w.rules) ==> result == callres("enumPeers", 1)
 //@   at enumPeers 1 assert [count] count >= 0 && count <= w.rules[index].Count || w.rules[index].Count < 0
 //@   at enumPeers 1 assert [count-candidates] count <= len(candidates) && arg1 == nil
 //@   at enumPeers 1 assert [candidates-valid] forall j :: 0 <= j && j < len(candidates) ==> candidates[j] != nil && !candidates[j].selected && (w.rules[index].Role != "learner" || isLearnerPeer(candidates[j]))
